@@ -15,7 +15,7 @@ LEVEL = 'exploration'
 RULE = ('full product length 0..9 and {255,256,65535,65537,131072} x initial/final x offset {0,5,-3} x dtype pairs x out length {ok,-1,+1} x '
         '{interpreted twin, compiled with guard zones, compiled with NUMBA_BOUNDSCHECK=1}; '
         'non-trivial = distinct (length, flags, offset, dtypes, out-length) with length>=1 or a flag set')
-ASSUMPTIONS = ['numpy.cumsum is the reference', 'N_out = N-1+initial+final defines the right output length',
+ASSUMPTIONS = ['numpy.cumsum is the reference', 'storing a non-integral partial sum into an integer output truncates it (the array-store conversion); the sums themselves are formed from the unconverted input values', 'N_out = N-1+initial+final defines the right output length',
                'empty Python lists cannot be typed by numba and are only run interpreted']
 ENVS = {'bchk': {'NUMBA_BOUNDSCHECK': '1'}}
 WORKERS = 6
@@ -23,7 +23,9 @@ CHUNK = 64
 ISOLATE_REPRO = True  # reproduce failures in a child: a compiled OOB may corrupt the heap
 
 DT = [('int64', 'int64'), ('uint32', 'uint64'), ('int32', 'float64'), ('float32', 'float64'),
-      ('list', 'int64'), ('int16', 'int32'), ('float64', 'float32')]
+      ('list', 'int64'), ('int16', 'int32'), ('float64', 'float32'),
+      ('float64:frac', 'int64'), ('float32:frac', 'int32')]       # non-integral values (multiples of 1/4, exact in every float type) into an integer output:
+                                                                   # the partial sums are formed first and truncated when stored
 G = 4
 
 
@@ -56,6 +58,16 @@ def run_concat(c):
         res, starts = concat_to_arr(lists, **kw)
     except Exception as e:
         return dict(problems=[dict(sig='concat_to_arr:raises:' + type(e).__name__, msg=f'lens={lens} dtype={c["dtype"]}: {e}')], nt=[])
+    # what one call returned belongs to the caller: a later call (other lists, same or other lengths) must not change it
+    res = np.asarray(res); starts = np.asarray(starts)
+    keep_res, keep_starts = res.copy(), starts.copy()
+    for other in ([[1, 2], [3]], [list(range(n + 1)) for n in lens], lists[::-1]):
+        try:
+            r2, s2 = concat_to_arr(other, **kw)
+        except Exception:
+            continue
+    if not (np.array_equal(res, keep_res) and np.array_equal(starts, keep_starts)):
+        probs.append(dict(sig='concat_to_arr:earlier-result-changed-by-later-call', msg=f'lens={lens} dtype={c["dtype"]}: starts {keep_starts.tolist()} became {starts.tolist()} after later calls'))
     exp = np.array([x for ell in lists for x in ell], dtype=(np.int64 if c['dtype'] is None else c['dtype']))
     es = np.concatenate([[0], np.cumsum(lens)]).astype(np.int64)
     if not np.array_equal(np.asarray(starts).astype(np.int64), es) or np.asarray(starts).dtype.kind not in 'iu':
@@ -78,6 +90,10 @@ def run(c):
     if m < 0:
         return dict(problems=[], evals=0)
     dout = np.dtype(c['dout'])
+    frac = c['din'].endswith(':frac')
+    if frac:
+        c = dict(c, din=c['din'][:-5])
+        vals = [v / 4 + 0.25 * (i % 3) for i, v in enumerate(vals)]
     if c['din'] == 'list':
         if n == 0 and c['mode'] != 'twin':
             return dict(problems=[], evals=0)
@@ -91,8 +107,13 @@ def run(c):
     obig = np.full(m + 2 * G, SENT, dtype=dout)
     out = np.ndarray((m,), dtype=dout, buffer=obig, offset=G * dout.itemsize)  # keeps its address even when empty
     f = getattr(cumsum, 'py_func', cumsum) if c['mode'] == 'twin' else cumsum     # (a plain-Python cumsum is its own twin)
-    full = np.concatenate([[off], off + np.cumsum(np.array(vals, dtype=dout), dtype=dout)]).astype(dout)
-    exp_total = full[-1]
+    if frac:
+        fsum = np.concatenate([[off], off + np.cumsum(np.array(vals, dtype=np.float64))])
+        full = np.trunc(fsum).astype(dout)
+        exp_total = fsum[-1]
+    else:
+        full = np.concatenate([[off], off + np.cumsum(np.array(vals, dtype=dout), dtype=dout)]).astype(dout)
+        exp_total = full[-1]
     sel = full[(0 if ini else 1):(len(full) if fin else len(full) - 1)] if n > 0 else full[:max(nout, 0)]
     try:
         tot = f(arr, out, initial=ini, final=fin, offset=off)
@@ -130,5 +151,5 @@ def run(c):
                 probs.append(dict(sig=sigbase + ':total', msg=f'returned {tot!r} expected {exp_total!r}'))
     nt = []
     if n >= 1 or ini or fin:
-        nt = [(n, ini, fin, off, c['din'], c['dout'], c['dl'])]
+        nt = [(n, ini, fin, off, c['din'] + (':frac' if frac else ''), c['dout'], c['dl'])]
     return dict(problems=probs, nt=nt, sample=c if (n == 3 and c['dl'] == 0 and c['mode'] == 'comp' and ini) else None)
